@@ -44,6 +44,33 @@ Apply(S, act) ==
                                        S1 == IF hs = {} THEN S ELSE [S EXCEPT !.held[CHOOSE j \in hs : \A k \in hs : j <= k].answered = TRUE]
                                    IN SubmitAnswer(S1, act.app, FromJson(act.m))
 
+\* ---------------------------------------------------------------- thread steps as data (interleaving-quantified use)
+\* a step names the thread that runs from its current blocking call to the next:
+\*   [th |-> "rd" | "wr", c |-> connection]   [th |-> "io"]   [th |-> "proc", c |-> creation number of the worker]
+\*   [th |-> "app_recv" | "app_resp", c |-> index of the application]   [th |-> "snd", c |-> sender]   [th |-> "stop"]
+ProcAt(S, id) == CHOOSE x \in UNION {{<<k, i>> : i \in 1..Len(S.tapp[AppOrder[k]].procs)} : k \in 1..Len(AppOrder)} :
+                   S.tapp[AppOrder[x[1]]].procs[x[2]].id = id
+Steps(S) ==
+  {[th |-> "rd", c |-> c] : c \in RdReady(S)} \cup {[th |-> "wr", c |-> c] : c \in WrReady(S)} \cup
+  (IF IoEnabled(S) THEN {[th |-> "io", c |-> 0]} ELSE {}) \cup
+  {[th |-> "proc", c |-> x[1]] : x \in ProcReady(S)} \cup
+  {[th |-> "app_recv", c |-> k] : k \in TRecvReady(S)} \cup {[th |-> "app_resp", c |-> k] : k \in TRespReady(S)} \cup
+  {[th |-> "snd", c |-> j] : j \in SndReady(S)} \cup
+  (IF StatsEnabled(S) THEN {[th |-> "stats", c |-> 0]} ELSE {}) \cup
+  (IF StopEnabled(S) THEN {[th |-> "stop", c |-> 0]} ELSE {})
+DoStep(S, st) ==
+  CASE st.th = "rd" -> RdStep(S, st.c)
+    [] st.th = "wr" -> WrStep(S, st.c)
+    [] st.th = "io" -> IoIter(S)
+    [] st.th = "proc" -> LET x == ProcAt(S, st.c) IN ProcStep(S, AppOrder[x[1]], x[2])
+    [] st.th = "app_recv" -> AppRecvOne(S, AppOrder[st.c])
+    [] st.th = "app_resp" -> AppRespOne(S, AppOrder[st.c])
+    [] st.th = "snd" -> SndStep(S, st.c)
+    [] st.th = "stats" -> StatsStep(S)
+    [] st.th = "stop" -> StopStep(S)
+\* one trace step at the free grain: an environment action alone, or one thread step alone
+FreeStepOf(S, act) == IF act.a = "step" THEN DoStep([S EXCEPT !.out = <<>>], act) ELSE Apply([S EXCEPT !.out = <<>>], act)
+
 ConnSt(S, c) == IF c = 0 THEN "" ELSE S.conn[c].st
 \* projection of the public state, in exactly the shape the harness records (world.snap)
 RECURSIVE SortedSeq(_)
